@@ -169,7 +169,7 @@ class SectionData:
             self.remove(filtered_sections)
         elif isinstance(filtered_sections, list):
             for s in filtered_sections:
-                if isinstance(s, Section) and s != self.__root:
+                if isinstance(s, Section) and s is not self.__root:
                     self.remove(s)
 
     @property
